@@ -54,6 +54,16 @@ CORPUS = [
     # shared import named by version order (1.2.0 > 1.1.5) / separate imports for tracks that are textual prefixes of each other
     "H reg 13;reg 12;reg 15;inst 0 0;inst 1 0;inst 2 0;inst 1 0",
     "H reg 20;reg 19;reg 21;inst 0 0;inst 1 0;inst 2 0;alias 2 16;export 3 16",
+    # toposort replay cases (emission order 1,2,alias,0; GraphContainsCycle(0))
+    "H reg 0;inst 0 0;inst 0 0;inst 0 0;alias 2 1;setarg 0 0 3",
+    "H reg 0;inst 0 0;alias 0 1;setarg 0 0 1",
+    # identifier reuse: a node exported under two names, its package unregistered, a new node in the freed slot, export, encode
+    "H reg 8;reg 1;inst 0 0;alias 0 0;export 1 22;export 1 6;unreg 0 0;inst 1 0;export 1 7",
+    "H reg 8;inst 0 0;alias 0 2;export 1 22;export 1 6;export 0 4;unreg 0 0;reg 3;inst 0 1;imp 2 3;setarg 1 2 0;export 1 7",
+    # ... removed with remove_node / unexported / argument unset, then re-created
+    "H reg 8;reg 1;inst 0 0;alias 0 0;export 1 22;export 1 6;inst 1 0;setarg 2 0 1;rm 0;inst 0 0;alias 0 1;export 1 7;setarg 2 0 1",
+    "H reg 8;reg 1;inst 0 0;alias 0 0;export 1 22;export 1 6;unexport 1;inst 1 0;setarg 2 0 1;unsetarg 2 0 1;rm 1;alias 0 1;export 1 6;setarg 2 0 1",
+    "H reg 8;reg 1;inst 0 0;inst 1 0;alias 0 0;setarg 1 0 2;export 1 1;export 1 9;unreg 1 0;reg 2;inst 1 1;alias 0 1;export 1 9",
     # use-dependent interfaces: producer feeds consumer, shared `types`
     "H reg 9;reg 10;inst 1 0;alias 0 19;inst 0 0;setarg 2 19 1;alias 2 9;export 3 9",
 ]
@@ -166,7 +176,7 @@ def run(res, tier, seed, replay):
         spec_failures_on_impl=len(prop_fail), distinct_nontrivial=len(shapes), encode_outcomes=outcome_hist,
         known_finding_observations={k: len(v) for k, v in known_hits.items()},
         c01_class_observations=c01,
-        rule="compositions: regression corpus + random accepted API histories over a universe of 23 packages (4 from C06, 4 with "
+        rule="every fourth composition is an adaptive history WITH removals (remove_node, unregister_package, unexport, unset_instantiation_argument; nodes exported under several names before they disappear) followed by re-creation that reuses node and package identifiers, before the encode (no permutations for those); the others: compositions: regression corpus + random accepted API histories over a universe of 23 packages (4 from C06, 4 with "
              "versioned interface-style imports on same/different semver tracks, 1 provider, 3 WIT-derived with `use`, 11 importing one "
              "interface at versions whose numeric and textual/field-wise orders disagree: v:w/i@1.1.5/1.2.0/1.10.0/1.4.0/12.0.1/1.3.0-rc.1/"
              "1.2.0+b5, p:q/r@0.2.0/0.2.10/0.21.0/0.3.0), local type "
